@@ -14,6 +14,7 @@ package c17
 
 import (
 	"context"
+	"errors"
 	"fmt"
 	"sort"
 	"strings"
@@ -49,6 +50,11 @@ type Scenario struct {
 	// start-up delay counts from the genesis time; > 0: it counts from the time of the last block).
 	PreBlocks     int    `json:"pre_blocks,omitempty"`
 	InitialHeight uint64 `json:"initial_height,omitempty"`
+	// FailAt > 0 (lazy mode): production number FailAt-1 fails at its end with an error of kind FailKind:
+	// generic | deadline (an error wrapping context.DeadlineExceeded: a downstream call with a deadline of its
+	// own, while the node's context is alive) | canceled (wrapping context.Canceled).
+	FailAt   int    `json:"fail_at,omitempty"`
+	FailKind string `json:"fail_kind,omitempty"`
 }
 
 func (sc Scenario) dur(k int) int64 {
@@ -166,6 +172,10 @@ func genScenario(t *rapid.T) Scenario {
 	for i := 0; i < nn; i++ {
 		sc.Notifs = append(sc.Notifs, genNotif(t, &sc))
 	}
+	if sc.Lazy && rapid.IntRange(0, 5).Draw(t, "failing") == 0 {
+		sc.FailAt = 1 + rapid.IntRange(0, 6).Draw(t, "failat")
+		sc.FailKind = rapid.SampledFrom([]string{"generic", "deadline", "canceled"}).Draw(t, "failkind")
+	}
 	return sc
 }
 
@@ -176,6 +186,7 @@ type prod struct {
 	S, E       int64
 	sSeq, eSeq int
 	done       bool
+	failed     bool
 }
 
 type note struct {
@@ -199,6 +210,10 @@ type trace struct {
 	loopErr     error
 	loopPanic   any
 	loopExit    int64 // -1: exited only after cancellation
+	failS       int64 // start and end of the production that failed (failed == true)
+	failE       int64
+	failed      bool
+	afterFail   int64 // start of the first production after the failed one (-1: none)
 	bubblePanic string
 	setupErr    error
 }
@@ -206,7 +221,7 @@ type trace struct {
 var bubbleEpoch = time.Date(2000, 1, 1, 0, 0, 0, 0, time.UTC)
 
 func execute(sc Scenario, withNotifs bool, dir string) (tr *trace) {
-	tr = &trace{loopExit: -1}
+	tr = &trace{loopExit: -1, afterFail: -1}
 	defer func() {
 		if r := recover(); r != nil {
 			tr.bubblePanic = fmt.Sprint(r)
@@ -308,6 +323,9 @@ func execute(sc Scenario, withNotifs bool, dir string) (tr *trace) {
 			k := len(tr.prods)
 			tr.seq++
 			tr.prods = append(tr.prods, prod{S: now(), sSeq: tr.seq})
+			if tr.failed && tr.afterFail < 0 {
+				tr.afterFail = now()
+			}
 			tr.mu.Unlock()
 			for _, nf := range byProd[k] {
 				wg.Add(1)
@@ -325,7 +343,20 @@ func execute(sc Scenario, withNotifs bool, dir string) (tr *trace) {
 			tr.mu.Lock()
 			tr.seq++
 			tr.prods[k].E, tr.prods[k].eSeq, tr.prods[k].done = now(), tr.seq, true
+			fail := sc.FailAt == k+1 && !tr.stop
+			if fail {
+				tr.prods[k].failed, tr.failed, tr.failS, tr.failE = true, true, tr.prods[k].S, now()
+			}
 			tr.mu.Unlock()
+			if fail {
+				switch sc.FailKind {
+				case "deadline":
+					return fmt.Errorf("failed to execute transactions: %w", context.DeadlineExceeded)
+				case "canceled":
+					return fmt.Errorf("remote signer: %w", context.Canceled)
+				}
+				return errors.New("failed to execute transactions: out of gas")
+			}
 			return nil
 		})
 
@@ -422,6 +453,24 @@ func (tr *trace) dump(sc Scenario) string {
 }
 
 // clip drops what happened at or after the horizon (the cancellation races with it by design).
+// allowanceAfterFailure: how long a node that keeps running after a failed production may take to begin the
+// next one: one block interval when a notification is waiting for its block (it arrived since the previous
+// production began and no block has been produced since), one idle interval otherwise.
+func (tr *trace) allowanceAfterFailure(sc Scenario) int64 {
+	from := int64(-1 << 62)
+	for i, p := range tr.prods {
+		if p.failed && i > 0 {
+			from = tr.prods[i-1].S
+		}
+	}
+	for _, n := range tr.notes {
+		if n.T >= from && n.T <= tr.failE {
+			return sc.BlockNs
+		}
+	}
+	return sc.IdleNs
+}
+
 func (tr *trace) clip(h int64) {
 	ps := tr.prods[:0]
 	for _, p := range tr.prods {
@@ -677,8 +726,28 @@ func run(sc Scenario, dir string) world.Verdict {
 		}
 		return world.Fail("C17/bubble-panic", "virtual-time run ended with: %s", tr.bubblePanic)
 	}
-	tr.clip(sc.HorizonNs)
 	var probs []problem
+	if tr.failed {
+		// A production failed. The node may halt (the loop returns and reports the error): nothing is demanded of
+		// a halted node. A node that carries on is still bound by the statement: the failed production yielded no
+		// block, so another production must begin within one block interval of the failure.
+		if tr.loopExit >= 0 {
+			if tr.loopErr == nil {
+				probs = append(probs, problem{0, "C17/lazy/halted-silently", fmt.Sprintf("production failed at %s and the aggregation loop returned at %s without reporting an error", fmtNs(tr.failE), fmtNs(tr.loopExit))})
+			}
+			tr.loopExit = -1
+		} else if deadline := tr.failE + tr.allowanceAfterFailure(sc); deadline < sc.HorizonNs && (tr.afterFail < 0 || tr.afterFail > deadline) {
+			next := "no further production began before the horizon " + fmtNs(sc.HorizonNs)
+			if tr.afterFail >= 0 {
+				next = "the next production began only at " + fmtNs(tr.afterFail)
+			}
+			probs = append(probs, problem{0, "C17/lazy/wake-up-lost-after-failed-production", fmt.Sprintf("production begun at %s failed at %s (%s error) and produced no block; the node kept running, yet %s (block interval %s, idle interval %s; allowed: %s after the failure)",
+				fmtNs(tr.failS), fmtNs(tr.failE), sc.FailKind, next, fmtNs(sc.BlockNs), fmtNs(sc.IdleNs), fmtNs(tr.allowanceAfterFailure(sc)))})
+		}
+		// what happened before the failed production began is judged as usual
+		sc.HorizonNs = tr.failS
+	}
+	tr.clip(sc.HorizonNs)
 	checkCommon(sc, tr, &probs)
 	if sc.Lazy {
 		checkLazy(sc, tr, &probs)
@@ -697,6 +766,9 @@ func run(sc Scenario, dir string) world.Verdict {
 
 	// non-triviality and labels
 	labels := map[string]bool{}
+	if tr.failed {
+		labels["production-fails:"+sc.FailKind] = true
+	}
 	if sc.Lazy {
 		labels["lazy"] = true
 	} else {
